@@ -8,8 +8,8 @@
    accepts ([axis_ok ax = true], lemma [valid_is_what_the_code_accepts]):
    lo <= hi, at least one grid point, strictly increasing, all inside [lo, hi].
    [nthR i l] is [nth i l 0]. *)
-From Coq Require Import ZArith Reals List Bool.
-From Verif Require Import Base.Num Base.Vec Gen.Partition C14.Model C14.ProofsGen C14.Proofs C14.ProofsIndex C14.ProofsUniform C14.ProofsSlice C14.ProofsNd C14.ProofsAxes C14.ProofsFactories C14.ProofsByaxis C14.ProofsList.
+From Coq Require Import ZArith QArith Reals List Bool.
+From Verif Require Import Base.Num Base.Vec Gen.Partition C14.Model C14.ProofsGen C14.Proofs C14.ProofsIndex C14.ProofsUniform C14.ProofsSlice C14.ProofsNd C14.ProofsAxes C14.ProofsFactories C14.ProofsByaxis C14.ProofsList Base.Transfer C14.Transfer.
 Import ListNotations.
 Local Open Scope R_scope.
 
@@ -539,3 +539,57 @@ Theorem model_int_bounds_test_is_the_generated_one : forall (its : bool) (i n : 
               else IInt i) :: r)).
 Proof. exact norm_ints_is_generated. Qed.
 Print Assumptions model_int_bounds_test_is_the_generated_one.
+
+(* ------------------------------------------------------------------ *)
+(* TRANSFER.  The model the correspondence shards EXECUTE (carrier Q, reduced rationals) is the
+   rational restriction of the model the theorems above are ABOUT (carrier R): Q2R commutes with
+   every executable function of C14/Model.v.  Guards are the places where the code divides:
+   strictly increasing coordinates (boundary fractions), the width of the located cell
+   (floating index), n >= 1 (uniform grids), cell_sides <> 0 (computed shape).
+   [axR] maps an axis over Q to the axis over R; [resmap] maps under the outcome enum. *)
+Theorem transfer_cell_vectors : forall ax : axis Q,
+  map Q2R (bdry_vec ax) = bdry_vec (axR ax) /\
+  map Q2R (cell_sizes ax) = cell_sizes (axR ax) /\
+  nodes_on_bdry ax = nodes_on_bdry (axR ax) /\
+  option_map Q2R (cell_side ax) = cell_side (axR ax) /\
+  axis_ok ax = axis_ok (axR ax).
+Proof.
+  exact (fun ax => conj (bdry_vec_transfer ax) (conj (cell_sizes_transfer ax)
+          (conj (nodes_on_bdry_transfer ax) (conj (cell_side_transfer ax) (axis_ok_transfer ax))))).
+Qed.
+Print Assumptions transfer_cell_vectors.
+Theorem transfer_boundary_cell_fractions : forall ax : axis Q, strict_incr (a_cs ax) = true ->
+  (Q2R (fst (bdry_fracs ax)), Q2R (snd (bdry_fracs ax))) = bdry_fracs (axR ax).
+Proof. exact bdry_fracs_transfer. Qed.
+Theorem transfer_constructor : forall p : list (axis Q),
+  mk_part (map axR p) = resmap (map axR) (mk_part p).
+Proof. exact mk_part_transfer. Qed.
+Theorem transfer_index : forall (p : list (axis Q)) (x : list Q),
+  index p x = index (map axR p) (map Q2R x).
+Proof. exact index_transfer. Qed.
+Theorem transfer_floating_index : forall (ax : axis Q) (x : Q),
+  let b := bdry_vec ax in let ind := count_lt x b in
+  ~ (nsub (nth0 ind b) (nth0 (ind - 1) b) == 0)%Q ->
+  Q2R (findex_axis ax x) = findex_axis (axR ax) (Q2R x).
+Proof. exact findex_axis_transfer. Qed.
+Theorem transfer_getitem_axis : forall (ax : axis Q) (it : item) (lim : Q * Q),
+  resmap (fun ab => (Q2R (fst ab), Q2R (snd ab))) (sub_limits ax it) = sub_limits (axR ax) it /\
+  resmap axR (sub_axis ax it lim) = sub_axis (axR ax) it (Q2R (fst lim), Q2R (snd lim)).
+Proof. exact (fun ax it lim => conj (sub_limits_transfer ax it) (sub_axis_transfer ax it lim)). Qed.
+Theorem transfer_uniform_grid : forall (n : Z) (xmin xmax : Q) (fl : bool * bool), (1 <= n)%Z ->
+  map Q2R (ugrid_axis n xmin xmax fl) = ugrid_axis n (Q2R xmin) (Q2R xmax) fl.
+Proof. exact ugrid_axis_transfer. Qed.
+Theorem transfer_completion : forall (rndQ : Q -> Z) (rndR : R -> Z) (oxmin oxmax : option Q) (on : option Z)
+  (odx : option Q) (fl : bool * bool),
+  (forall q, rndR (Q2R q) = rndQ q) ->
+  (forall dx, odx = Some dx -> ~ (dx == 0)%Q) ->
+  resmap triR (complete_axis rndQ oxmin oxmax on odx fl) =
+  complete_axis rndR (option_map Q2R oxmin) (option_map Q2R oxmax) on (option_map Q2R odx) fl.
+Proof. exact complete_axis_transfer. Qed.
+Theorem transfer_factories : forall (cs : list Q) (omin omax : option Q) (fl : bool * bool),
+  resmap axR (nonuniform_axis cs omin omax fl) =
+    nonuniform_axis (map Q2R cs) (option_map Q2R omin) (option_map Q2R omax) fl /\
+  resmap axR (fromgrid_axis cs omin omax) =
+    fromgrid_axis (map Q2R cs) (option_map Q2R omin) (option_map Q2R omax).
+Proof. exact (fun cs omin omax fl => conj (nonuniform_axis_transfer cs omin omax fl) (fromgrid_axis_transfer cs omin omax)). Qed.
+Print Assumptions transfer_factories.
